@@ -6,10 +6,10 @@ from __future__ import annotations
 import ast
 from typing import Optional
 
-from ..core.astutil import u, call_name, kwarg, names_in
+from ..core.astutil import u, call_name, names_in
 from ..core.loader import AnchorError, Undecided
 from ..core.report import Ctx
-from .c14 import Fn, strip_conv, base_name
+from .c14 import Fn, strip_conv
 
 UPWIND = "src/porepy/numerics/fv/upwind.py"
 GRID = "src/porepy/grids/grid.py"
